@@ -121,6 +121,68 @@ def reset_by_interpretation(ctx, repo, rule="I6", rule_disconnect=None):
     ctx.floor(rule, "reset valuations interpreted", n, 20)
 
 
+def nothing_found_is_announced(ctx, repo, rule):
+    """The locate outcome 'nobody answered' by interpretation: on the manager model async_connect(identifier) runs with
+    the real GeckoAsyncLocator (built by its constructor inside async_locate_spas) whose discover() is interpreted on a
+    model event loop and clock on which no reply ever arrives: the manager must hold an empty descriptor LIST, announce
+    SPA_NOT_FOUND and end in ERROR_SPA_NOT_FOUND - not stay in LOCATED_SPAS with descriptors None, which ends the
+    reconnect driver on an assertion."""
+    from ..absint import BoundMethod, Closure, Native, Obj, Opaque, PyRaise, Undecided
+    from ..managermodel import Manager
+    m = Manager(repo).warm_up()
+    m.put("IDLE", facade=False, spa=False, descriptors=False)
+    it = m.it
+    st = {"clock": 100.0, "sleeps": 0}
+    transport = Obj(None, {"close": Native(lambda a, k: None, "close"), "sendto": Native(lambda a, k: None, "sendto"), "is_closing": Native(lambda a, k: False, "is_closing")}, name="transport")
+
+    def endpoint(a, k):
+        proto = a[0]([], {}) if isinstance(a[0], Closure) else it.apply(a[0], [], {})
+        if isinstance(proto, Obj) and proto.cls is not None:
+            cmf = repo.method(proto.cls.short, "connection_made", required=False)
+            if cmf is not None:
+                it.call(cmf, proto, [transport])
+        return (transport, proto)
+    loop = Obj(None, {"create_future": Native(lambda a, k: Obj(None, {"done": Native(lambda a2, k2: False), "set_result": Native(lambda a2, k2: None), "cancel": Native(lambda a2, k2: None)}, name="future")),
+                      "create_datagram_endpoint": Native(endpoint, "create_datagram_endpoint")}, name="loop")
+    base_hook = m._hook
+
+    def hook(it_, node, callee, args, kwargs):
+        nm = getattr(callee, "name", "")
+        if nm == "time.monotonic":
+            return st["clock"]
+        if nm in ("asyncio.get_running_loop", "asyncio.get_event_loop"):
+            return loop
+        if nm == "asyncio.sleep":
+            st["sleeps"] += 1
+            if st["sleeps"] > 5000:
+                raise PyRaise("model: discover() did not return")
+            st["clock"] += float(args[0]) if args and isinstance(args[0], (int, float)) and args[0] > 0 else 0.05
+            return None
+        if nm in ("asyncio.create_task", "asyncio.ensure_future"):
+            tname = kwargs.get("name", "task")
+            return Obj(None, {"get_name": Native(lambda a, k: tname), "cancel": Native(lambda a, k: None), "done": Native(lambda a, k: False), "cancelled": Native(lambda a, k: False)}, name="task")
+        if isinstance(callee, BoundMethod) and callee.fi.name in ("consume", "_broadcast_loop", "_tidy"):
+            return Opaque(f"coroutine<{callee.fi.name}>")
+        return base_hook(it_, node, callee, args, kwargs)
+    it.call_hook = hook
+    ac = repo.method(MAN, "async_connect")
+    try:
+        it.steps = 0
+        ret = it.call(ac, m.obj, ["SPA-ID", None])
+        outcome = None
+    except PyRaise as e:
+        ret, outcome = None, e.what
+    except Undecided as e:
+        raise AnalysisError(f"{ac.qual} on the manager model with a discovery nobody answers: {e}")
+    events = [c[0] for c in m.calls]
+    desc = it.getattr(m.obj, "_spa_descriptors")
+    ok = outcome is None and ret is None and "SPA_NOT_FOUND" in events and m.state() == "ERROR_SPA_NOT_FOUND" and isinstance(desc, list) and not desc
+    ctx.ob(rule, "async_connect::nobody-answers::announced-and-error-state", ok,
+           f"async_connect when no spa answers the discovery ({st['clock'] - 100.0:.0f}s of model time): outcome {outcome!r}, client events {events}, final state {m.state()}, descriptors {desc!r} - expected "
+           f"LOCATING_STARTED, LOCATING_FINISHED, SPA_NOT_FOUND, the state ERROR_SPA_NOT_FOUND and an empty descriptor list (descriptors None in LOCATED_SPAS ends the reconnect driver on an assertion and nothing reports the missing spa)",
+           ac.loc, sample={"rule": rule, "events": events, "final": m.state()})
+
+
 def lifecycle_by_interpretation(ctx, repo):
     """I1-I4, I6, I7 on the interpreted relation: every state x facade presence x event"""
     from ..absint import Opaque as _Op
@@ -206,6 +268,8 @@ def check(ctx):
     # the lifecycle by interpretation (vlib/managermodel.py) carries the verdict; the rules that read the switch as a ladder
     # of `event == X` tests with state assignments underneath apply only while it has that shape
     lifecycle_by_interpretation(ctx, repo)
+    ctx.rule("I11", "locate outcomes: when nobody answers the discovery the manager holds an empty descriptor list, announces SPA_NOT_FOUND and enters ERROR_SPA_NOT_FOUND (async_connect interpreted on the manager model with the real locator class, its discover() skipped)")
+    nothing_found_is_announced(ctx, repo, "I11")
     healthy = len(state_rows) >= 10 and len(raise_rows) >= 6
     ctx.count("I9:switch-read-as-ladder", int(healthy))
     if not healthy:
